@@ -1,4 +1,5 @@
 import DltypeModel
+import Properties.C16
 namespace Dltype.C14
 open Dltype
 
@@ -71,5 +72,22 @@ theorem function_eq_class (acc : Acc) (d : FuncDecl) (vals : List (Name × Value
     argsPhase acc d [] vals = constructBatch acc d.params vals := by
   unfold argsPhase constructBatch
   rw [addParams_eq_addAll vals d.params hn hv]
+
+/-- the entries a NamedTuple / dataclass construction queues depend on the given values only through the value of each field name … -/
+theorem addAll_perm {vals vals' : List (Name × Value)} (hp : vals.Perm vals') (hn : (vals.map Prod.fst).Nodup)
+    (fields : List (Name × HintAnns)) : constructBatch.addAll vals fields = constructBatch.addAll vals' fields := by
+  induction fields with
+  | nil => rfl
+  | cons f fs ih =>
+    obtain ⟨n, a⟩ := f
+    simp only [constructBatch.addAll, C16.lookupArg_perm hp hn n, ih]
+
+/-- … hence **the order in which the fields are written in the constructor call does not matter** (positional, by keyword, keywords
+    in any order): same verdict, report and bindings — the fields are checked in declaration order -/
+theorem construction_order_does_not_matter (acc : Acc) (fields : List (Name × HintAnns)) {vals vals' : List (Name × Value)}
+    (hp : vals.Perm vals') (hn : (vals.map Prod.fst).Nodup) :
+    constructBatch acc fields vals = constructBatch acc fields vals' := by
+  unfold constructBatch
+  rw [addAll_perm hp hn]
 
 end Dltype.C14
